@@ -12,7 +12,8 @@ SHARDS = {'quick': 1, 'thorough': 4}
 RULE = ('(i) exhaustive decision table: skipped x rate in {-1, 0, 0.3, 1, 1.5} x forcing (none / from the operation / '
         'from inside an intercepted body) x ignore-forcing x discard (none / from the operation / from inside a body) x '
         'outcome (return / ordinary exception / interrupt) x operation kind (instance / class-level), every row run '
-        'against a spy cassette; (ii) long seeded histories at fractional rates {0.1, 0.5, 0.9}: the same seed twice, '
+        'against a spy cassette, plus pairs of decorated operation classes where one extends the other with different '
+        'parameters; (ii) long seeded histories at fractional rates {0.1, 0.5, 0.9}: the same seed twice, '
         'paired histories that differ only in operation content and outcome, the same histories with every operation on '
         'its own thread and on a pool of three threads, and Hypothesis-generated histories mixing '
         'classes with different parameters where forced runs are followed by unforced runs of other classes; (iii) the '
@@ -192,14 +193,55 @@ def check_row(ctx, row):
         raise Violation('after row %r an unforced run at rate 0 was %s' % (row, decision(cas.log)), 'force-leak')
 
 
+HIER_PARAMS = [{'skipped': True, 'rate': 1, 'ignore': False}, {'skipped': False, 'rate': 0, 'ignore': False},
+               {'skipped': False, 'rate': 1, 'ignore': False}, {'skipped': False, 'rate': 0, 'ignore': True},
+               {'skipped': False, 'rate': 1.5, 'ignore': True}]
+
+
+def check_hierarchy(ctx, row):
+    """A decorated operation class extends another decorated operation class: each follows its own parameters."""
+    from playback.tape_recorder import TapeRecorder, RecordingParameters
+    cas = null_spy()
+    rec = TapeRecorder(cas, random_seed=11)
+    rec.enable_recording()
+
+    def as_params(p):
+        return {'sampling_rate': p['rate'], 'ignore_enforced_sampling': p['ignore'], 'skipped': p['skipped']}
+
+    base = make_class(rec, 'BaseOp', as_params(row['base']), row['klass'])
+    sub = type('SubOp', (base,), {})
+    rec.recording_params(RecordingParameters(**as_params(row['sub'])))(sub)
+    order = [('sub', sub), ('base', base)] if row['sub_first'] else [('base', base), ('sub', sub)]
+    for which, cls in order:
+        del cas.log[:]
+        script = {'force': row['force'], 'discard': 'none', 'outcome': 'return', 'content': 1}
+        run_op(cls, script, row['klass'])
+        d = decision(cas.log)
+        want = expected_row(dict(row[which], force=row['force'], discard='none'))
+        if d != want:
+            words = {'none': 'not started', 'save': 'saved', 'abort': 'aborted'}
+            raise Violation('operation class %s (own parameters %r, %s a class with parameters %r): recording was %s, '
+                            'its policy says %s' % (cls.__name__, row[which], 'extends' if which == 'sub' else
+                                                    'extended by', row['base' if which == 'sub' else 'sub'], words[d],
+                                                    words[want]), 'decision-table-class-hierarchy')
+
+
 def table(ctx):
+    ok = True
+    for base, sub in itertools.permutations(HIER_PARAMS, 2):
+        for force, klass, sub_first in itertools.product(['none', 'op'], ['instance', 'class'], [False, True]):
+            row = {'base': base, 'sub': sub, 'force': force, 'klass': klass, 'sub_first': sub_first}
+            ctx.case({'hierarchy': row}, True, classes=('table:class-hierarchy',))
+            if not guarded(ctx, {'hierarchy': row}, lambda c: check_hierarchy(ctx, c['hierarchy'])):
+                ok = False
+                if len(ctx.violations) >= 3:
+                    return False
     rows = []
     for skipped, rate, force, ignore, discard, outcome, klass in itertools.product(
             [False, True], [-1, 0, 0.3, 1, 1.5], ['none', 'op', 'body'], [False, True], ['none', 'op', 'body'],
             ['return', 'raise', 'interrupt'], ['instance', 'class']):
         rows.append({'skipped': skipped, 'rate': rate, 'force': force, 'ignore': ignore, 'discard': discard,
                      'outcome': outcome, 'klass': klass, 'content': (len(rows) % 3)})
-    ok = True
     for row in rows:
         factors = sum([row['skipped'], row['force'] != 'none', row['ignore'], row['discard'] != 'none',
                        row['outcome'] != 'return', row['rate'] not in (1,)])
@@ -413,6 +455,8 @@ def check_s3(ctx, case):
 def replay(ctx, case):
     if 'row' in case:
         check_row(ctx, case['row'])
+    elif 'hierarchy' in case:
+        check_hierarchy(ctx, case['hierarchy'])
     elif 'ops' in case:
         check_mixed(ctx, case)
     elif 'ratio' in case:
